@@ -11,7 +11,7 @@ REQUIRED_THEOREMS = ["Gv.Props.C13." + n for n in [
     # the Go-mirroring model of Deduplicate
     "dedup_model_eq_reference", "firstOccs_mem_iff", "dedup_keeps_first_occurrences_in_order",
     "dedup_groups_partition_names", "dedup_group_led_by_kept", "dedup_idempotent",
-    "dedupKey_spec", "dedupKey_nt_eq_iff",
+    "dedupKey_spec", "dedupKey_nt_eq_iff", "dedup_sequences_any_names",
     # kernel-checked witnesses that the distinct-names assumption is needed
     "dedup_repeated_names_renamed", "dedup_repeated_names_dropped"]]
 LEVEL_TEXT = ("Lean theorems, all inputs: (Compress) the model of Compress() keeps names and row order, gives every row the new "
@@ -24,7 +24,9 @@ LEVEL_TEXT = ("Lean theorems, all inputs: (Compress) the model of Compress() kee
               "original order with names and residues untouched (dedup_keeps_first_occurrences_in_order), its groups are a rearrangement "
               "of the names with no empty group (dedup_groups_partition_names), group k starts with the k-th kept row and holds exactly "
               "the names of the rows with that row's key (dedup_group_led_by_kept), and a second pass changes nothing and reports "
-              "singletons (dedup_idempotent); the N/X-as-gap key is characterised (dedupKey_spec, dedupKey_nt_eq_iff). Tied to /repo by "
+              "singletons (dedup_idempotent); for ANY container (names possibly repeated) under the policies NONE / IGNORE_SEQUENCE the kept "
+              "sequences are still exactly the first occurrences in order and the groups the reference groups "
+              "(dedup_sequences_any_names); the N/X-as-gap key is characterised (dedupKey_spec, dedupKey_nt_eq_iff). Tied to /repo by "
               "bounded-exhaustive + random correspondence; the oracle's expected value is Spec.firstOccs / Spec.groupsOf, the "
               "definitions the theorems are about.")
 LEVEL_NOTE = ("Trusted: Lean kernel; harness/oracle/driver; go-radix Walk visiting keys in increasing byte order is an external "
@@ -34,10 +36,11 @@ TECHNIQUE = ("Lean 4 proof (sorted-insertion invariants, multiset counts; loop i
 RULE = ("exhaustive: all alignments of <= 3 rows x <= 4 columns over {A,C,-} (compress) and all 3-row sets over sequences of length 2 "
         "over {A,N,-} (dedup); random larger ones incl. all-identical, all-distinct, single row / column; non-trivial = at least one "
         "repeated and one unique pattern/row")
-PARTIAL = ["de-duplication theorems assume pairwise distinct names (the container invariant of C01; with a name repeated by a caller's "
-           "Rename the re-adding renames the kept rows, or under IGNORE_NAME drops rows with distinct sequences while still reporting "
-           "their groups: dedup_repeated_names_renamed / dedup_repeated_names_dropped; the reference model of C01 leaves that case "
-           "unspecified)",
+PARTIAL = ["the name-level de-duplication theorems (kept rows = first occurrences with their names, partition, leaders, idempotence) "
+           "assume pairwise distinct names (the container invariant of C01). With a name repeated by a caller's Rename the re-adding "
+           "renames kept rows (dedup_repeated_names_renamed; sequences and groups are still right: dedup_sequences_any_names), and "
+           "under IGNORE_NAME it drops rows with distinct sequences while still reporting their groups "
+           "(dedup_repeated_names_dropped, reproduced on the Go code); the reference model of C01 leaves that case unspecified",
            "Compress: the order of the new columns (increasing byte order, go-radix Walk) is an assumption of the model checked by "
            "correspondence; no theorem depends on it except patternTable_spec's sortedness clause",
            "Compress on the empty alignment sets the length to 0 instead of -1 (outside the quantifier, modelled as is)"]
